@@ -33,6 +33,58 @@ def build_cfg(name, flags):
     return None if rc == 0 else (o + e)[-2000:]
 
 
+DBG_FLAGS = ['-O1', '-DUNODB_DETAIL_STANDALONE', '-DUNODB_DETAIL_WITH_STATS', '-DUNODB_SPINLOCK_LOOP_VALUE=1', '-DUNODB_DETAIL_VERIF_HOOKS']
+
+
+def olc_assert_exploration(res, tier):
+    """Assertions under concurrency: harness/olc_sched.cpp built WITH the library's assertions (the sequential matrix cannot
+    reach the optimistic-read paths that run while a writer is active) explores the point / scan / two-writer programs of
+    C03 / C09 with all single-preemption schedules (+ random ones); an assertion that fires aborts the run."""
+    import p_olc
+    from concurrent.futures import ThreadPoolExecutor
+    srcs = [os.path.join(VERIF, 'harness', 'olc_sched.cpp')] + [os.path.join(REPO, f) for f in ('qsbr.cpp', 'qsbr_ptr.cpp', 'art_internal.cpp')]
+    with Lock():
+        b, berr = build_cxx('olc_sched_dbg', srcs, DBG_FLAGS)
+    if berr:
+        res.violation('cannot build the assertion-enabled olc_sched: ' + berr[-500:], {'kind': 'build'}, found_input=False)
+        return
+    thorough = tier == 'thorough'
+    progs = []
+    for pid in ('C09', 'C03'):
+        for pr in p_olc.programs(pid, tier):
+            if pr not in progs and (thorough or pr[0].count(',') < 30):
+                progs.append(pr)
+    maxe = 1200 if thorough else 400
+    nrand = 120 if thorough else 40
+
+    def run(a):
+        i, (init, prog) = a
+        rc, o, e = sh([b, '--init', init, '--prog', prog, '--bound', '1', '--max', str(maxe), '--random', str(nrand),
+                       '--seed', str(seed() + i), '--qs', 'every', '--sample', '0'], timeout=3000 if thorough else 900)
+        return init, prog, rc, sum(1 for l in o.split('\n') if l.startswith('X ')), (e or '')[-400:]
+    with ThreadPoolExecutor(max_workers=12) as ex:
+        outs = list(ex.map(run, enumerate(progs)))
+    execs = sum(o[3] for o in outs)
+    nb = 0
+    for init, prog, rc, nx, e in outs:
+        if rc != 0:
+            nb += 1
+            if nb <= 3:
+                what = 'an internal assertion fired' if 'Assertion' in e else 'stopped (rc=%d)' % rc
+                res.violation('C16 violated on the implementation: assertion-enabled OLC index, init {%s} program %s, %s after %d explored '
+                              'schedules: %s' % (init, prog, what, nx, e.strip().split('\n')[0][:300]),
+                              {'kind': 'property-on-implementation', 'harness': 'olc_sched (assertion build)', 'init': init, 'program': prog,
+                               'flags': DBG_FLAGS, 'args': ['--bound', '1', '--max', str(maxe), '--random', str(nrand), '--qs', 'every'],
+                               'stderr': e},
+                              signature='olc-assert:' + (e.split('Assertion "')[1].split('"')[0] if 'Assertion "' in e else 'rc%d' % rc))
+    res.coverage['olc_assertion_build_programs'] = len(progs)
+    res.coverage['olc_assertion_build_executions'] = execs
+    res.coverage['olc_assertion_build_failures'] = nb
+    if execs < len(progs) * 5:
+        res.violation('the assertion-enabled OLC exploration is vacuous (%d executions)' % execs,
+                      {'kind': 'correspondence', 'broken': 'olc_sched assertion build'}, found_input=False)
+
+
 def strip_stats(line):
     return line.split(' L=')[0] if ' L=' in line else line
 
@@ -60,6 +112,16 @@ def check(pid, tier, replay=None):
         res.violation('cannot build configuration(s) %s: %s' % (bad, (err or [b for b in berrs if b][0])[-600:]),
                       {'kind': 'build', 'configs': bad}, found_input=False)
         return res.finish()
+    if replay and json.load(open(replay)).get('harness', '').startswith('olc_sched'):
+        rp = json.load(open(replay))
+        srcs = [os.path.join(VERIF, 'harness', 'olc_sched.cpp')] + [os.path.join(REPO, f) for f in ('qsbr.cpp', 'qsbr_ptr.cpp', 'art_internal.cpp')]
+        b, berr = build_cxx('olc_sched_dbg', srcs, rp.get('flags', DBG_FLAGS))
+        if berr:
+            print(berr[-1000:])
+            return 1
+        rc, o, e = sh([b, '--init', rp['init'], '--prog', rp['program']] + rp['args'] + ['--seed', str(seed()), '--sample', '0'], timeout=3000)
+        print('olc_sched (assertion build) rc=%d executions=%d' % (rc, sum(1 for l in o.split('\n') if l.startswith('X '))), (e or '')[-600:])
+        return 0
     if replay:
         rp = json.load(open(replay))
         for name, flags, stats, asserts in cfgs:
@@ -141,6 +203,7 @@ def check(pid, tier, replay=None):
             else:
                 continue
             break
+    olc_assert_exploration(res, tier)
     if not res.proof_ok and not res.violations:
         res.violation('proof obligation no longer checks: ' + ' | '.join(res.broken)[:500],
                       {'kind': 'proof', 'broken': res.broken, 'log': res.proof_log[-1500:]}, found_input=False)
